@@ -45,6 +45,20 @@ Theorem C29_refused_unchanged : forall st o st', step st o = (st', RRefused) -> 
 Proof. exact refused_unchanged. Qed.
 Print Assumptions C29_refused_unchanged.
 
+(* os.open: the wrapper's decision is a function of the flag set ([guarded]); every flag set it lets
+   through unguarded (O_RDONLY, possibly with O_EXCL) changes nothing, so on a pre-existing
+   (non-isolated) path NO combination of access mode, O_CREAT, O_EXCL, O_TRUNC, O_APPEND, O_TMPFILE has any
+   effect: it is refused or it is a harmless read.  (O_RDONLY|O_TRUNC truncates under Linux; it is guarded.) *)
+Theorem C29_os_open_unguarded_harmless : forall st p f d,
+  guarded f = false -> fst (do_os_open st p f d) = st.
+Proof. exact os_open_unguarded_harmless. Qed.
+Print Assumptions C29_os_open_unguarded_harmless.
+
+Theorem C29_os_open_foreign_no_effect : forall st p f d,
+  foreign st p = true -> fst (do_os_open st p f d) = st.
+Proof. exact os_open_foreign_no_effect. Qed.
+Print Assumptions C29_os_open_foreign_no_effect.
+
 (* The premise wf0 is decidable for trees given as lists and is checked by the correspondence on
    every sandbox tree ([wf_initb] is part of [check_case]). *)
 Theorem C29_isolation_restores_checked_tree : forall init ops,
